@@ -45,6 +45,18 @@ pub fn exec_oracle(kind: &str, fields: &[&str]) -> String {
         "S_C18S" => oracle_c18s(fields),
         "S_C18F" => oracle_c18f(fields),
         "S_C18P" => oracle_c18p(fields),
+        "S_C18U" => {
+            let spec = crate::exec::CtxSpec { kind: fields[0].to_string(), resources: vec![], users: vec![] };
+            let name = unescape(fields[1]);
+            crate::exec::with_ctx(&spec, |ctx| {
+                for def in [name.clone(), format!("{name} inv"), format!("addone | {name}")] {
+                    if ctx.op(&def).is_ok() {
+                        return format!("oracle FAIL {:?} instantiates although {name} names nothing", def);
+                    }
+                }
+                "oracle pass".to_string()
+            })
+        }
         "S_C19U" => oracle_c19u(fields),
         "S_C19O" => {
             // the dm / dms operators: encode (inverse) then decode (forward) returns every position as it was
